@@ -127,7 +127,10 @@ claim('C03',
       'count exceeds the steps made before a reversal lies in the region where the rate does '
       'change sign after tick 1 (rest at tick 1 included, even and odd accel); D10 the steps made '
       'before a reversal are '
-      'FLOOR(|C(T)|/2^31) with the accumulator polynomial of D3. NOT decided: minimality of the '
+      'FLOOR(|C(T)|/2^31) with the accumulator polynomial of D3; D12 a computing path that hands '
+      'back a constant (fallback) duration is not taken by any move of a witness grid (path '
+      'conditions evaluated with exact / 40-digit square roots); one family is a recorded known '
+      'finding (K1: accumulator exactly on a threshold at the reversal tick -> duration 0). NOT decided: minimality of the '
       'chosen root and the accumulator range when the accumulator lands exactly on a step '
       'boundary (measure-zero coincidences; DESIGN.md 4.3).',
       'Trusted: as C01. The claim is deliberately limited; see DESIGN.md 3/C03 and 5.',
